@@ -245,7 +245,7 @@ func runC13Case(tier string, seed uint64, idx int, keepDir string) *CaseResult {
 		defer os.RemoveAll(root)
 	}
 	if kind == "crop_classic_vs_converter_yaml" {
-		if _, err := os.Stat(filepath.Join(verifDir, ".build", "cropfileconverter")); err != nil {
+		if _, err := os.Stat(filepath.Join(buildDir(), "cropfileconverter")); err != nil {
 			res.Status = "skipped"
 			res.Err = "converter binary not built"
 			return res
@@ -294,7 +294,7 @@ func init() {
 		floors = append(floors, "pairs_"+k)
 	}
 	otherChecks["C13"] = func(tier string, seed uint64) int {
-		spec := checkSpec{Prop: "C13", Level: "exploration", NQuick: 400, NThorough: 12000,
+		spec := checkSpec{Prop: "C13", Level: "exploration", NQuick: 2000, NThorough: 40000,
 			Rule:   fmt.Sprintf("case i is a pair of kind i mod %d from %v: one generated project written in two encodings of the same content (values restricted to what both encodings can carry exactly; the crop pairs cycle through every shipped crop parameter file incl. varieties and the permanent crops grown as consecutive cuts, the converter pair runs the real cropfileconverter binary), both run through the real model, all result files compared byte for byte (12 significant digits of crop, water, N and temperature state per day; date text columns rewritten to ISO only for the date-format pairs); non-trivial = both runs completed > 30 days", len(c13Kinds), c13Kinds),
 			Floors: floors}
 		return runSimCheck(spec, tier, seed)
